@@ -255,6 +255,11 @@ where
             if contested {
                 fail!("honest-proof-fails", "fri-degree-truncation-config", "prover panic {} for {}", p.msg, ctx());
             }
+            if p.msg.contains("FailedToDrawFieldElement") {
+                // the coin gives up after 1000 rejected candidates; for f62 extensions a candidate is
+                // accepted with probability 4^-degree, so this happens about once in 10^7 draws
+                fail!("honest-proof-fails", "coin-draw-exhaustion", "prover panic {} for {}", p.msg, ctx());
+            }
             fail!("prover-panic-on-satisfying-instance", p.site(), "{}:{}: {} :: {}", p.file, p.line, p.msg, ctx());
         },
     };
@@ -270,6 +275,9 @@ where
         Ok(Err(e)) => {
             if contested {
                 fail!("honest-proof-fails", "fri-degree-truncation-config", "verifier error {e} for {}", ctx());
+            }
+            if format!("{e:?}").contains("RandomCoinError") {
+                fail!("honest-proof-fails", "coin-draw-exhaustion", "verifier error {e} for {}", ctx());
             }
             let div = first_divergence(&history(PROVER), &history(VERIFIER)).map(|d| d.1).unwrap_or_else(|| "transcripts equal up to the failure".into());
             fail!("verifier-rejects-honest-proof", format!("{e:?}").split('(').next().unwrap_or("error").to_string(), "{e} [{div}] :: {}", ctx());
